@@ -28,14 +28,14 @@ type Cfg struct {
 	FixedOpts      *drv.OpenOpts // when set, reopen uses these options
 	PageSizes      []int
 	MaxSize        bool
-	CommitWeight   int // weight of commit inside a write transaction (default 12 of ~100)
-	ReaderBoost    int // multiplier of reader begin/close weights
-	ReopenWeight   int // default 6
-	CursorMut      int // percentage of cursor-program calls that mutate the bucket (cursor reused across mutations)
-	Faults         int // weight of arming an I/O fault (0 = never)
+	CommitWeight   int    // weight of commit inside a write transaction (default 12 of ~100)
+	ReaderBoost    int    // multiplier of reader begin/close weights
+	ReopenWeight   int    // default 6
+	CursorMut      int    // percentage of cursor-program calls that mutate the bucket (cursor reused across mutations)
+	Faults         int    // weight of arming an I/O fault (0 = never)
 	FaultKinds     string // kinds of calls an armed fault may hit ("" = all; see drv.OpArmFault)
-	TearMeta       int // weight of tearing the older meta slot between sessions (0 = never)
-	MidReaders     int // percentage of commits during which a reader is begun from inside the commit (I/O hook)
+	TearMeta       int    // weight of tearing the older meta slot between sessions (0 = never)
+	MidReaders     int    // percentage of commits during which a reader is begun from inside the commit (I/O hook)
 }
 
 func DefaultCfg() Cfg {
